@@ -221,6 +221,45 @@ def pyx_float_call(rel_pyx, qual, args, extra_ns=None):
     return fns[qual](*args)
 
 
+_FILE_SYNC = {}
+
+
+def pyx_files_in_sync(rels):
+    """(ok, why): every function of every listed .pyx file matches the source lines embedded in its generated C (and the .so is not older than the .c)"""
+    from . import loader, pyx2py
+    for rel in rels:
+        if rel not in _FILE_SYNC:
+            ok, why = True, ''
+            try:
+                src = open(loader.repo_path(rel)).read()
+                for n in loader.pyx_function_names(rel):
+                    try:
+                        sp = pyx2py.translit_function(src, n)[1]
+                    except Exception:
+                        continue
+                    o2, w2 = compiled_in_sync(rel, sp)
+                    if not o2:
+                        ok, why = False, '%s %s: %s' % (rel, n, w2)
+                        break
+            except Exception as e:
+                ok, why = False, '%s: %r' % (rel, e)
+            _FILE_SYNC[rel] = (ok, why)
+        if not _FILE_SYNC[rel][0]:
+            return _FILE_SYNC[rel]
+    return True, ''
+
+
+def api_or_witness(rels, api_replay, witness):
+    """replay callback: the public-API replay `api_replay(md)` when the compiled modules of `rels` are in sync with their sources; otherwise the source-level witness
+    (the compiled code does not contain the edit, so it cannot be the replay target; nothing in the sandbox can regenerate it)"""
+    def rp(md):
+        ok, why = pyx_files_in_sync(rels)
+        if ok:
+            return api_replay(md)
+        return True, '%s [compiled module STALE (%s): witnessed on the transliterated current source only]' % (witness, why)
+    return rp
+
+
 def pyx_value(rel_pyx, qual, args, compiled, extra_ns=None):
     """(value, note): the compiled function `compiled` = (module, func) when the module is in sync with the current .pyx (source lines embedded in the generated C), otherwise the
     transliterated current source in float mode. This keeps the replay meaningful when a .pyx was edited and the extension could not be rebuilt (no Cython in the sandbox)."""
